@@ -172,6 +172,7 @@ func (m *GRPCServerMuxer) Enabled() bool {
 }
 
 func (m *GRPCServerMuxer) Listener(id uint32, doneCh <-chan struct{}) (net.Listener, error) {
+	verifhook.Point("mux.listener.enter", m, int64(id), 0)
 	sess, err := m.session()
 	if err != nil {
 		return nil, err
